@@ -446,6 +446,18 @@ func check(raw json.RawMessage) fw.Result {
 			if n.ns != "" {
 				cr.cnt["dom_foreign_elements"]++
 			}
+			for _, a := range n.attrs {
+				if hasPseudoSpace(a.v) {
+					if a.k == "class" {
+						cr.cnt["dom_class_values_with_pseudo_space"]++
+					} else {
+						cr.cnt["dom_other_attr_values_with_pseudo_space"]++
+					}
+				}
+				if strings.Contains(a.v, "\r") {
+					cr.cnt["dom_attr_values_with_cr"]++
+				}
+			}
 		case kText:
 			if wsOnly(n.text) {
 				cr.cnt["dom_text_ws_only"]++
@@ -491,25 +503,35 @@ func check(raw json.RawMessage) fw.Result {
 
 	st := &cr.st
 	for k, v := range map[string]int{
-		"ref_adjacent_across_text_or_comment": st.adjAcrossNonElem,
-		"ref_sibling_across_text_or_comment":  st.sibAcrossNonElem,
-		"ref_nth_negative_a_true":             st.nthNegATrue,
-		"ref_nth_positive_a_true_n_ge_1":      st.nthPosATrue,
-		"ref_nth_of_type_index_differs":       st.nthOfTypeSkipped,
-		"ref_nth_true_with_non_element_sibs":  st.nthWithNonElemSib,
-		"ref_empty_true_whitespace_text":      st.emptyTrueWS,
-		"ref_empty_true_comment_only":         st.emptyTrueComment,
-		"ref_empty_true_no_child":             st.emptyTrueNone,
-		"ref_empty_false_text":                st.emptyFalseText,
-		"ref_empty_false_element":             st.emptyFalseElem,
-		"ref_has_candidate_outside_scope":     st.hasScopeDecided,
-		"ref_root_true":                       st.rootTrue,
-		"ref_iflag_folded":                    st.iflagFolded,
-		"ref_not_list_args_disagree":          st.notListMixed,
-		"ref_empty_false_non_ascii_space":     st.emptyFalseOddSpace,
-		"ref_root_false_nested_html":          st.rootFalseNestedHTML,
-		"ref_iflag_unicode_fold_only":         st.iflagUnicodeOnly,
-		"ref_is_list_args_disagree":           st.isListMixed,
+		"ref_adjacent_across_text_or_comment":  st.adjAcrossNonElem,
+		"ref_sibling_across_text_or_comment":   st.sibAcrossNonElem,
+		"ref_nth_negative_a_true":              st.nthNegATrue,
+		"ref_nth_positive_a_true_n_ge_1":       st.nthPosATrue,
+		"ref_nth_of_type_index_differs":        st.nthOfTypeSkipped,
+		"ref_nth_true_with_non_element_sibs":   st.nthWithNonElemSib,
+		"ref_empty_true_whitespace_text":       st.emptyTrueWS,
+		"ref_empty_true_comment_only":          st.emptyTrueComment,
+		"ref_empty_true_no_child":              st.emptyTrueNone,
+		"ref_empty_false_text":                 st.emptyFalseText,
+		"ref_empty_false_element":              st.emptyFalseElem,
+		"ref_has_candidate_outside_scope":      st.hasScopeDecided,
+		"ref_root_true":                        st.rootTrue,
+		"ref_iflag_folded":                     st.iflagFolded,
+		"ref_not_list_args_disagree":           st.notListMixed,
+		"ref_empty_false_non_ascii_space":      st.emptyFalseOddSpace,
+		"ref_root_false_nested_html":           st.rootFalseNestedHTML,
+		"ref_iflag_unicode_fold_only":          st.iflagUnicodeOnly,
+		"ref_is_list_args_disagree":            st.isListMixed,
+		"ref_word_delimited_by_space":          st.wordDelim[0],
+		"ref_word_delimited_by_tab":            st.wordDelim[1],
+		"ref_word_delimited_by_lf":             st.wordDelim[2],
+		"ref_word_delimited_by_ff":             st.wordDelim[3],
+		"ref_word_delimited_by_cr":             st.wordDelim[4],
+		"ref_word_is_whole_value":              st.wordWholeValue,
+		"ref_word_true_only_css_space_splits":  st.wordPseudoTrue,
+		"ref_word_false_only_css_space_splits": st.wordPseudoFalse,
+		"ref_word_true_with_lookalike_char":    st.wordLookalikeInMatch,
+		"ref_id_false_untrimmed":               st.idEdgeSpaceFalse,
 	} {
 		if v != 0 {
 			cr.cnt[k] += int64(v)
